@@ -173,7 +173,7 @@ func checkMain(args []string) {
 	stubsUsed := map[string]int{}
 	seenViol := map[string]bool{}
 	for _, h := range specs {
-		pkg := P.pkgs[P.modPath+"/"+h.Pkg]
+		pkg := P.pkgs[modJoin(P.modPath, h.Pkg)]
 		if pkg == nil {
 			fmt.Printf("ERROR property=%s package %s not loaded\n", prop, h.Pkg)
 			exit = 3
@@ -723,7 +723,7 @@ func replayRecorded(dir string) int {
 		fmt.Println("load error:", err)
 		return 2
 	}
-	pkg := P.pkgs[P.modPath+"/"+vec.Pkg]
+	pkg := P.pkgs[modJoin(P.modPath, vec.Pkg)]
 	ctx := NewCtx()
 	s, err := NewSolver(ctx, defaultSolver(), 30000)
 	if err != nil {
